@@ -40,6 +40,7 @@ func init() {
 }
 
 func runC05(c *Ctx) {
+	defer ruleVendoredEqualsUpstream(c, "C05.23", vendoredScanner)
 	c05Pipeline(c, "C05.1")
 	c05Comparisons(c, "C05.2")
 	c05TwoCharOps(c, "C05.3")
@@ -1697,6 +1698,8 @@ func c06Ambiguity(c *Ctx, rule string) {
 // =========================== C07 ==============================================================
 
 func runC07(c *Ctx) {
+	defer c06Arms(c, "C07.16")
+	defer ruleMadeThenAppended(c, "C07.17", "engine")
 	defer ruleGroupByAlwaysGroups(c, "C07.15")
 	c.Rule("C07.1", "the GROUP BY list accepts its comma separator (C10.1 applied to GroupByClause)")
 	sub := NewCtx("C07", c.W)
